@@ -107,6 +107,16 @@ struct PolyOp {
         else if (op == "maxpyin") P.maxpyin(A(0), A(1), A(2));
         else if (op == "axmyin") P.axmyin(A(0), A(1), A(2));
         // scalar forms: (res, u) + scalar c
+        else if (op == "add.sl") P.add(A(0), c, A(1));
+        else if (op == "sub.sl") P.sub(A(0), c, A(1));
+        else if (op == "mul.sl") P.mul(A(0), c, A(1));
+        else if (op == "div.sl") P.div(A(0), c, A(1));
+        else if (op == "mod.sl") P.mod(A(0), c, A(1));
+        else if (op == "addin.s") P.addin(A(0), c);
+        else if (op == "subin.s") P.subin(A(0), c);
+        else if (op == "mulin.s") P.mulin(A(0), c);
+        else if (op == "divin.s") P.divin(A(0), c);
+        else if (op == "modin.s") P.modin(A(0), c);
         else if (op == "add.s") P.add(A(0), A(1), c);
         else if (op == "sub.s") P.sub(A(0), A(1), c);
         else if (op == "mul.s") P.mul(A(0), A(1), c);
